@@ -20,6 +20,7 @@ type mArr struct{ elems []mValue } // array literal used as an iterable
 type mIterRes struct {             // an iterator result object
 	value mValue
 	done  bool
+	obs   int // != 0: 'done' and 'value' are accessors that log A(obs, 0) / A(obs, 1) when read (mkIt flag 4)
 }
 type mPromise struct {
 	tampered  bool // its 'constructor' is not %Promise%: PromiseResolve(%Promise%, p) does not return p itself
@@ -242,19 +243,41 @@ func (m *ctlModel) callNext(it mValue, v mValue) (mValue, completion) {
 		case 1:
 			return nil, throwC(1000 + it.site)
 		case 2:
-			return &mIterRes{value: undef, done: true}, normalC
+			return &mIterRes{value: undef, done: true, obs: it.obs()}, normalC
 		case 3:
 			return 5, normalC
 		}
 		if it.i < it.n {
 			it.i++
-			return &mIterRes{value: 10*it.site + it.i - 1}, normalC
+			return &mIterRes{value: 10*it.site + it.i - 1, obs: it.obs()}, normalC
 		}
-		return &mIterRes{value: 77, done: true}, normalC
+		return &mIterRes{value: 77, done: true, obs: it.obs()}, normalC
 	case *mGen:
 		return m.genResume(it, resumeMsg{kind: cNormal, v: v})
 	}
 	return nil, mTypeErr()
+}
+
+func (it *mIt) obs() int {
+	if it.flags&4 != 0 {
+		return it.site
+	}
+	return 0
+}
+
+// resDone / resValue: reading 'done' / 'value' of an iterator result object (observable when the object has accessors).
+func (m *ctlModel) resDone(r *mIterRes) bool {
+	if r.obs != 0 {
+		m.logEv("A", r.obs, "int64:0")
+	}
+	return r.done
+}
+
+func (m *ctlModel) resValue(r *mIterRes) mValue {
+	if r.obs != 0 {
+		m.logEv("A", r.obs, "int64:1")
+	}
+	return r.value
 }
 
 func hasReturn(it mValue) bool {
@@ -290,9 +313,9 @@ func (m *ctlModel) callReturn(it mValue, v mValue) (mValue, completion) {
 		case 2:
 			return 5, normalC
 		case 3:
-			return &mIterRes{value: 3}, normalC
+			return &mIterRes{value: 3, obs: it.obs()}, normalC
 		}
-		return &mIterRes{value: mNorm(v) + 100, done: true}, normalC
+		return &mIterRes{value: mNorm(v) + 100, done: true, obs: it.obs()}, normalC
 	case *mGen:
 		return m.genResume(it, resumeMsg{kind: cReturn, v: v})
 	}
@@ -308,9 +331,9 @@ func (m *ctlModel) callThrow(it mValue, v mValue) (mValue, completion) {
 		}
 		switch d % 4 {
 		case 1:
-			return &mIterRes{value: 7}, normalC
+			return &mIterRes{value: 7, obs: it.obs()}, normalC
 		case 2:
-			return &mIterRes{value: 9, done: true}, normalC
+			return &mIterRes{value: 9, done: true, obs: it.obs()}, normalC
 		case 3:
 			return 5, normalC
 		}
@@ -333,11 +356,11 @@ func (m *ctlModel) iteratorStep(rec *mIterRec) (mValue, bool, completion) {
 		rec.done = true
 		return nil, true, mTypeErr()
 	}
-	if res.done {
+	if m.resDone(res) {
 		rec.done = true
 		return nil, true, normalC
 	}
-	return res.value, false, normalC
+	return m.resValue(res), false, normalC
 }
 
 // iteratorClose(rec, completion) per 7.4.9.
